@@ -1,4 +1,5 @@
 import Iauthd.Set.Spec
+import Iauthd.Set.Comparators
 import Drv.Util
 import Std.Data.HashSet
 /-
@@ -23,6 +24,14 @@ def cmpOf : Kind → Elem → Elem → Int
   | .int, a, b => cmpInt3 ⟨a.ik, a.uid⟩ ⟨b.ik, b.uid⟩
   | .charp, a, b => cmpCharp ⟨a.sk, a.uid⟩ ⟨b.sk, b.uid⟩
   | .ptr, a, b => cmpPtr ⟨a.pk, a.uid⟩ ⟨b.pk, b.uid⟩
+
+/-- the comparators the driver actually executes are lawful, so `Iauthd.Properties.C19`
+    applies to every run of `drv_set model` -/
+theorem cmpOf_laws (k : Kind) : CmpLaws (cmpOf k) := by
+  cases k
+  · exact cmpInt3_laws.comap (fun a : Elem => (⟨a.ik, a.uid⟩ : IntElem))
+  · exact cmpCharp_laws.comap (fun a : Elem => (⟨a.sk, a.uid⟩ : StrElem))
+  · exact cmpPtr_laws.comap (fun a : Elem => (⟨a.pk, a.uid⟩ : PtrElem))
 
 def parseKey (kind : Kind) (ptrMod : Nat) (s : String) (uid : Nat) : Elem :=
   match kind with
